@@ -120,6 +120,7 @@ class World:
         self._desc_cache: dict = {}
         self.uploaded: dict[str, bytes | None] = {}
         self.requests = 0
+        self._mcache: dict = {}
         self.last_status: dict[str, int] = {}
 
     def use_actor(self, who: str):
@@ -154,6 +155,7 @@ class World:
             shutil.rmtree(self.blob_folder)
         self.blob_folder.mkdir(parents=True, exist_ok=True)
         self.uploaded = {}
+        self._mcache = {}
 
     def token(self, service: str) -> str:
         from dashlive.server.requesthandler.csrf import CsrfProtection
@@ -517,16 +519,21 @@ class World:
                 out.append(f"timing reference {s['tref']!r} of stream {s['dir']} names no media file of that stream")
         return out
 
-    @staticmethod
-    def stream_urls(s: dict) -> tuple:
-        return (f"/dash/vod/{s['dir']}/hand_made.mpd", f"/dash/live/{s['dir']}/hand_made.mpd",
-                f"/dash/vod/{s['dir']}/hand_made.mpd?drm=all",
-                f"/dash/vod/{s['dir']}/hand_made.mpd?timeline=1", f"/dash/live/{s['dir']}/hand_made.mpd?timeline=1")
+    # the option vectors that make a manifest SELECT other media (encrypted instead of clear representations, another
+    # audio codec, a single representation) - requested in vod and live mode for every listed stream and
+    # multi-period stream after every step - plus the addressing variant timeline=1
+    SELECTIONS = ("", "?drm=all", "?drm=clearkey", "?acodec=ec-3", "?abr=0", "?timeline=1")
 
-    @staticmethod
-    def mps_urls(m: dict) -> tuple:
-        return (f"/mps/vod/{m['name']}/hand_made.mpd", f"/mps/live/{m['name']}/hand_made.mpd",
-                f"/mps/vod/{m['name']}/hand_made.mpd?timeline=1", f"/mps/live/{m['name']}/hand_made.mpd?timeline=1")
+    @classmethod
+    def stream_urls(cls, s: dict) -> tuple:
+        return tuple(f"/dash/{mode}/{s['dir']}/hand_made.mpd{q}" for mode in ("vod", "live") for q in cls.SELECTIONS)
+
+    @classmethod
+    def mps_urls(cls, m: dict) -> tuple:
+        # (a live multi-period manifest lists every Period of the time shift buffer and is by far the most expensive
+        # request: drm=clearkey, abr and acodec are left to the vod request)
+        return tuple(f"/mps/vod/{m['name']}/hand_made.mpd{q}" for q in cls.SELECTIONS) + \
+            tuple(f"/mps/live/{m['name']}/hand_made.mpd{q}" for q in ("", "?drm=all", "?timeline=1"))
 
     # ------------------------------------------------------------------ oracle: deletions (property text)
     DELETING = {"ds": "stream-deletion", "dm": "media-file deletion", "dk": "key deletion",
@@ -655,20 +662,43 @@ class World:
         out = []
         c = self.c
         status: dict[str, int] = {}
+        # A manifest is requested again only when something it can depend on has changed since it was last requested
+        # in this history: the stream's row (with saved defaults and timing reference), its media files and their key
+        # links, the keys; for a multi-period stream its row, Periods, AdaptationSets and the streams they play.
+        keys_sig = json.dumps(sorted((k["kid"], k["pk"]) for k in rows["keys"]))
+        ssig, ssig_mps = {}, {}
+        for s in rows["streams"]:
+            fs = sorted((json.dumps(f, sort_keys=True, default=str) for f in rows["files"] if f["stream"] == s["pk"]))
+            fp = {f["pk"] for f in rows["files"] if f["stream"] == s["pk"]}
+            ssig_mps[s["pk"]] = json.dumps([{k: v for k, v in s.items() if k != "defaults"}, fs,
+                                            sorted(x for x in rows["links"] if x[0] in fp), keys_sig], sort_keys=True,
+                                           default=str)     # a multi-period manifest does not use stream defaults
+            ssig[s["pk"]] = json.dumps([s, fs, sorted(x for x in rows["links"] if x[0] in fp), keys_sig,
+                                        sorted(e["reason"] for e in rows["errors"] if e["media"] in fp)],
+                                       sort_keys=True, default=str)
+
+        def fetch(url, sig):
+            hit = self._mcache.get(url)
+            if hit is not None and hit[0] == sig:
+                st = hit[1]
+            else:
+                st = c.get(url).status_code
+                self.requests += 1
+                self._mcache[url] = (sig, st)
+            status[url] = st
+            if st >= 500 or not (st == 200 or 400 <= st < 500):
+                out.append(f"GET {url} -> {st}")
         for s in rows["streams"]:
             for url in self.stream_urls(s):
-                st = c.get(url).status_code
-                self.requests += 1
-                status[url] = st
-                if st >= 500 or not (st == 200 or 400 <= st < 500):
-                    out.append(f"GET {url} -> {st}")
+                fetch(url, ssig[s["pk"]])
         for m in rows["mps"]:
+            ps = sorted((p for p in rows["periods"] if p["parent"] == m["pk"]), key=lambda p: p["pk"])
+            pp = {p["pk"] for p in ps}
+            sig = json.dumps([m, ps, sorted((a["pk"], a["period"], a["track"], a["ctype"]) for a in rows["adps"]
+                                            if a["period"] in pp),
+                              [ssig_mps.get(p["stream"]) for p in ps]], sort_keys=True, default=str)
             for url in self.mps_urls(m):
-                st = c.get(url).status_code
-                self.requests += 1
-                status[url] = st
-                if st >= 500 or not (st == 200 or 400 <= st < 500):
-                    out.append(f"GET {url} -> {st}")
+                fetch(url, sig)
         self.last_status = status
         # the media requests a player would make next: init and first media segment of the timing-reference file
         for s in rows["streams"]:
@@ -679,6 +709,26 @@ class World:
             for mode in ("live", "vod"):
                 for seg in ("init", "1"):
                     url = f"/dash/{mode}/{s['dir']}/{f['name']}/{seg}.{ext}"
+                    st = c.get(url).status_code
+                    self.requests += 1
+                    if st >= 500:
+                        out.append(f"GET {url} -> {st}")
+        # … and through a multi-period stream: the same two requests below the first two Periods
+        by_pk = {s["pk"]: s for s in rows["streams"]}
+        names = {m["pk"]: m["name"] for m in rows["mps"]}
+        seen: dict = {}
+        for p in sorted(rows["periods"], key=lambda x: x["pk"]):
+            s = by_pk.get(p["stream"])
+            if s is None or p["parent"] not in names or seen.get(p["parent"], 0) >= 2:
+                continue
+            f = next((f for f in rows["files"] if f["stream"] == s["pk"] and f["name"] == s["tref"] and f["indexed"]), None)
+            if f is None:
+                continue
+            seen[p["parent"]] = seen.get(p["parent"], 0) + 1
+            ext = {"video": "m4v", "audio": "m4a"}.get(f["ctype"], "mp4")
+            for mode in ("live", "vod"):
+                for seg in ("init", "1"):
+                    url = f"/mps/{mode}/{names[p['parent']]}/{p['pk']}/{f['name']}/{seg}.{ext}"
                     st = c.get(url).status_code
                     self.requests += 1
                     if st >= 500:
